@@ -1,7 +1,8 @@
 #!/usr/bin/env python3
 """Detection under refactoring: apply a committed behaviour-preserving refactoring AND a confirmed seed together and
 require that the seed is still reported by (one of) the checks recorded to catch it.  An instrument (like mutsweep),
-not a registered check.  usage: combosweep.py [--same-file] [--limit N]"""
+not a registered check.  usage: combosweep.py [--same-file] [--large] [--limit N]   (--large: whole-method rewrites too; there an
+analysis error is an accepted outcome, a MISS is not)"""
 import glob, importlib, json, os, re, shutil, subprocess, sys, tempfile
 from concurrent.futures import ProcessPoolExecutor
 HERE = os.path.dirname(os.path.dirname(os.path.abspath(__file__)))
@@ -63,7 +64,8 @@ def main():
     same_file = "--same-file" in sys.argv
     limit = int(sys.argv[sys.argv.index("--limit") + 1]) if "--limit" in sys.argv else None
     refs = []
-    for p in sorted(glob.glob(os.path.join(HERE, "refactors", "*", "patch.diff"))):
+    dirs = ["refactors"] + (["refactors_large"] if "--large" in sys.argv else [])
+    for p in sorted(q for d_ in dirs for q in glob.glob(os.path.join(HERE, d_, "*", "patch.diff"))):
         refs.append((os.path.basename(os.path.dirname(p)), open(p, encoding="utf-8").read()))
     seeds = []
     for mp in sorted(glob.glob(os.path.join(HERE, "seeded", "*", "meta.json"))):
